@@ -309,6 +309,32 @@ def check_files(case, stats):
         raise Violation(case, "the language table loaded by the package differs from the master table")
 
 
+LOCALE_SCRIPT = r"""
+import sys, json
+sys.path.insert(0, sys.argv[1])
+from gherkin.dialect import DIALECTS
+from gherkin.parser import Parser
+master = json.load(open(sys.argv[2], encoding="utf-8"))
+assert DIALECTS == master, "language table loaded under this locale differs from the master table"
+doc = Parser().parse("# language: fr\nFonctionnalit\u00e9: f\n Sc\u00e9nario: s\n  \u00c9tant donn\u00e9 que x\n")
+assert doc["feature"]["keyword"] == "Fonctionnalit\u00e9" and doc["feature"]["children"][0]["scenario"]["steps"][0]["keywordType"] == "Context"
+print("ok")
+"""
+
+
+def check_locale(case, stats):
+    """the package loads its language table identically whatever the process locale / default encoding is"""
+    import os
+    import subprocess
+    import sys
+    from vlib.common import REPO, HarnessError
+    stats.case(("locale", case["env"].get("LC_ALL")), True, sample=case)
+    env = dict(os.environ, PYTHONDONTWRITEBYTECODE="1", **case["env"])
+    r = subprocess.run([sys.executable] + case.get("flags", []) + ["-c", LOCALE_SCRIPT, os.path.join(REPO, "python"), MASTER_LANGUAGES], capture_output=True, text=True, env=env, timeout=120)
+    if r.returncode != 0 or r.stdout.strip() != "ok":
+        raise Violation(case, "in a process with %r %r the package does not load / use its language table as shipped: %s" % (case["env"], case.get("flags"), (r.stderr or r.stdout)[-500:]))
+
+
 def check_table_after_use(case, stats):
     """every entry point that reads the language table (classic matcher, Markdown matcher, Dialect objects) leaves it as shipped"""
     from gherkin.token_matcher_markdown import GherkinInMarkdownTokenMatcher as MD
@@ -337,12 +363,15 @@ def unit_files(a):
     stats = Stats()
     sweep(stats, [{"sub": "files"}], check_files)
     sweep(stats, [{"sub": "table-after-use"}], check_table_after_use)
+    sweep(stats, [{"sub": "locale", "env": {"LC_ALL": "C", "LANG": "C", "PYTHONUTF8": "0", "PYTHONCOERCECLOCALE": "0"}},
+                  {"sub": "locale", "env": {"LC_ALL": "C.UTF-8", "PYTHONUTF8": "1"}},
+                  {"sub": "locale", "env": {"LC_ALL": "POSIX", "PYTHONUTF8": "0", "PYTHONCOERCECLOCALE": "0"}, "flags": ["-O"]}], check_locale)
     sweep(stats, [{"sub": "files"}], check_files)
     return stats
 
 
 def replay(case, stats):
-    return {"kw": check_kw, "foreign": check_foreign, "pair": check_pair, "nearmiss": check_nearmiss, "header": check_header, "files": check_files, "table-after-use": check_table_after_use}[case["sub"]](case, stats)
+    return {"kw": check_kw, "foreign": check_foreign, "pair": check_pair, "nearmiss": check_nearmiss, "header": check_header, "files": check_files, "table-after-use": check_table_after_use, "locale": check_locale}[case["sub"]](case, stats)
 
 
 def run(ctx):
